@@ -95,6 +95,10 @@ def build(p):
 
         def actor():
             # the Placement strategy decides at which step of the loop's handling of job 2 this runs
+            # (or, with actor_at, a directed schedule places it inside the loop iteration that follows the completion
+            #  of job 2 at that virtual time)
+            if p.get("actor_at"):
+                E.vsleep(max(p["actor_at"] - E.now(), 0))
             if f2._state not in ("FINISHED", "CANCELLED", "CANCELLED_AND_NOTIFIED"):
                 E.emit("Pending", f=2)
             E.emit("Action", s=action)
@@ -104,7 +108,7 @@ def build(p):
                 from more_executors._impl.event import GLOBAL_HANDLER
                 GLOBAL_HANDLER.on_exiting()
             else:
-                box[0].shutdown(wait=False)
+                box[0].shutdown(wait=bool(p.get("wait")))
 
         E.spawn("actor", actor)
         E.vsleep(20000)
